@@ -39,7 +39,7 @@ P = ScenarioProperty(
     lambda sc: [C08Checker(sc)],
     _judge,
     quick=3200,
-    thorough=60000,
+    thorough=60000, machine={},
     run_kwargs={"observe_chain": True},
 )
 run_shard = P.run_shard
